@@ -103,12 +103,14 @@ def h_hostile(ex, srcs, gaps, phase='fresh', length=8, dll='j1939-21'):
         data = sym_payload(ex, 'h%d_b' % i, length)
         cid = tp21.can_id(prio, pf, dest, src)
         # through the inbox: the micro scheduler explores delivery before / after a pending job pass
-        n.inbox.append({'i': -1, 't': w.now, 'src': 'ext', 'id': cid, 'ext': True, 'data': list(data), 'fd': False, 'lost': False})
+        n.inbox.append({'i': -1, 't': w.now, 'src': 'ext', 'id': cid, 'ext': True, 'data': list(data), 'fd': False, 'lost': False, 'via_listener': True})
         w.run(until=w.now)
     w.branching = False
     # ---- every session opened by the traffic is released within the longest timeout
     w.run(until=w.now + T('6.5'))
     info = {'phase': phase, 'srcs': srcs, 'gaps': gaps}
+    # malformed frames may raise inside notify(), but nothing may escape the bus listener (the Notifier thread would die)
+    ex.claim('exceptions_contained_at_the_bus_listener', not n.listener_escapes, dict(info, escaped=[repr(e) for e in n.listener_escapes][:2]))
     ex.claim('job_thread_alive', n.dead is None, dict(info, died=repr(n.dead)))
     ex.claim('no_busy_spin', not n.spin, info)
     if not n.job_alive():
